@@ -110,6 +110,15 @@ public:
     // Calculate TTL from DNS result
     std::uint32_t ttl = calculateResultTtl(result);
 
+    // RFC 1035 3.2.1: a TTL of zero means the answer must not be cached. (ExpiringCache::set
+    // reads a zero TTL as "use the default TTL" and would serve it for defaultTtl seconds.)
+    // The zero-TTL answer also supersedes whatever was cached for this question.
+    if (ttl == 0)
+    {
+      cache_->remove(key); // eviction callback keeps the entry counters right
+      return;
+    }
+
     // Store positive result
     CachedDnsResult cachedResult(result);
     cache_->set(key, cachedResult, std::chrono::seconds(ttl));
@@ -150,6 +159,13 @@ public:
     auto existingEntry = cache_->get(key);
     bool hadEntry = existingEntry.has_value();
     bool hadNegativeEntry = hadEntry && existingEntry->isNegative;
+
+    // A negative TTL of zero means "do not cache" as well (see put()).
+    if (negativeTtl == 0)
+    {
+      cache_->remove(key);
+      return;
+    }
 
     // Store negative result
     CachedDnsResult cachedResult(result, errorMessage);
